@@ -21,6 +21,8 @@ pub enum Step {
     Remove(u8),
     /// import the document again (empty list)
     Recreate(u8),
+    /// an operation on another part of the store
+    Noise(Noise),
 }
 
 #[derive(Serialize, Deserialize, Clone, Debug)]
@@ -61,6 +63,7 @@ impl Prop for C17 {
             3 => Just(Step::Reopen),
             1 => (0u8..3).prop_map(Step::Remove),
             1 => (0u8..3).prop_map(Step::Recreate),
+            3 => crate::gen::noise().prop_map(Step::Noise),
         ];
         (prop::bool::weighted(0.3), 1u8..=3, vec(step, 1..=max))
             .prop_map(|(file, docs, steps)| Case { file, docs, steps })
@@ -79,6 +82,7 @@ impl Prop for C17 {
             let missing = namespace(5).id();
             let mut model: Vec<Vec<[u8; 32]>> = vec![vec![]; c.docs as usize];
             let mut exists = vec![true; c.docs as usize];
+            let mut noise_state = NoiseState::default();
             let mut regs: Vec<(usize, std::collections::BTreeSet<u8>, bool)> = vec![(0, Default::default(), false); c.docs as usize];
             for (i, s) in c.steps.iter().enumerate() {
                 match s {
@@ -118,6 +122,13 @@ impl Prop for C17 {
                         }
                     }
                     Step::Read(_) => {}
+                    Step::Noise(nz) => {
+                        if let Err(e) = apply_noise(&ctx.rt, &mut st.store, nz, &mut noise_state) {
+                            o.fail("C17/noise", format!("step {i} {:?}: {e}", nz));
+                            break;
+                        }
+                        o.class("noise-on-other-parts-of-the-store");
+                    }
                     Step::Remove(d) => {
                         let d = *d as usize % docs.len();
                         es(st.store.remove_replica(&docs[d]))?;
